@@ -1,5 +1,6 @@
 //! fatfs-mon: runtime monitors for rust-fatfs (see /verif/DESIGN.md).
 
+mod build;
 mod checks;
 mod clock;
 mod dev;
